@@ -907,8 +907,15 @@ class C18(Prop):
         return ops
 
     def project(self, op, line):
-        # every generated input is frozen; C18 pins that the verdict is complete, not which one it is
-        fin = lambda c: c if c in ("inc", "panic") else "complete"
+        # C18 pins that the verdict of a frozen input (or of >= 108 bytes) is complete, not which one it
+        # is; the 107-byte inputs whose first CR is the last byte are outside the premise: whether they
+        # are still "incomplete" (as on the current tree) or already HeaderTooLong is not pinned
+        x = op_bytes(op)
+        cr = x.find(b"\r")
+        if not ((cr >= 0 and cr + 1 < len(x)) or (cr < 0 and len(x) >= 107) or len(x) >= 108):
+            fin = lambda c: c if c == "panic" else "any"
+        else:
+            fin = lambda c: c if c in ("inc", "panic") else "complete"
         if op.startswith("v1s"):
             return tuple(fin(cls(res1(p))) for p in line.split(" | ")[:2])
         return fin(cls(res1(line)))
